@@ -71,6 +71,12 @@ def r1_dispatch(ctx):
 
 
 def r2_pipeline(ctx):
+    from . import C17 as _C17
+    _C17._IN_CONVERSION.append(1)    # (C17.R4 shares this rule in turn: not re-entered from here)
+    try:
+        _C17.r4_authoritative(ctx)   # a modification by injection takes the referenced node's current typed value (shared with C17.R4)
+    finally:
+        _C17._IN_CONVERSION.pop()
     fn = ctx.fn(NB, "BaseNode.modify_value")
     body = K.body_nodoc(fn)
     s = [norm(x) for x in body]
@@ -186,6 +192,8 @@ def r2_pipeline(ctx):
                         t = norm(e)
                         if t in arr_atoms:
                             return arr_atoms[t] == _a
+                        if t in ("isinstance(self.value, list)", "isinstance(self.value, tuple)", "isinstance(self.value, (list, tuple))", "isinstance(self.value, (tuple, list))"):
+                            return False          # neither a scalar nor the numpy array cast_value builds (established below) is a list
                         return {u: _g, "self.unit": _o, f"self.unit != {u}": not _e, f"self.unit == {u}": _e, f"{u} != self.unit": not _e, f"{u} == self.unit": _e,
                                 f"{en} is None": _n, f"{en} is not None": not _n, en: not _n}.get(t)
                     cs, un = consistent(ps, atom)
